@@ -77,6 +77,27 @@ func checkC20(r *core.Run) {
 			}
 		}
 	}
+	// hidden state between calls (runs first, sequentially)
+	var items []pairItem
+	for _, si := range []int{0, len(tsDirSites) / 2, len(tsDirSites) - 1} {
+		site := tsDirSites[si]
+		for _, src := range []string{"", "s"} {
+			for _, fn := range []string{"a", "", ".", "..", "a/b", "/a", ":", "a:b", "a/../b", "\x00", "\u00e9/x", "\u65e5..", "..\u65e5", strings.Repeat("a", 129) + "/x", strings.Repeat("a", 200), strings.Repeat("\u00e9", 64) + ":"} {
+				src, fn := src, fn
+				items = append(items, pairItem{name: site.dir + "\x00" + src + "\x00" + fn, replay: map[string]interface{}{"Dir": site.dir, "Src": src, "Filename": fn},
+					judge: func() (cl, what string) {
+						if p, msg := core.Try(func() {
+							ts, err := site.f(tuc.TrustedSourceFromStringKnownToSatisfyTypeContract(src), fn)
+							cl, what = c20Judge(site.dir, src, fn, ts.String(), err)
+						}); p {
+							return "panic", "panicked: " + msg
+						}
+						return cl, what
+					}})
+			}
+		}
+	}
+	pairLayer(r, items)
 	alpha := []string{".", "/", "\\", ":", "\x00", " ", "\t", "a", "~", "*", "∕", "．", "‥", "\n", "%2e", ".."}
 	ln := 4
 	if r.Thorough() {
